@@ -499,6 +499,26 @@ func judge(f *fixture, c C20Case) ev.Outcome {
 			}
 		}
 	}
+	decorated := false // a well-formed applicable payload with irregularities on top
+	typeErr := map[string]bool{"str_in_int": true, "out_of_range": true, "quoted_number": true, "seq_in_string": true, "scalar_options": true, "elem_type": true}
+	for _, fam := range families {
+		a := app[fam]
+		if a == nil || len(a.Extra) == 0 {
+			continue
+		}
+		for _, e := range a.Extra {
+			switch {
+			case a.Ill == "":
+				decorated = true
+				o.Classes = append(o.Classes, "extra:"+e+"_on_wellformed")
+			case a.Ill != "nullish":
+				o.Classes = append(o.Classes, "extra:"+e+"_on_malformed")
+				if strings.HasPrefix(e, exUnknown) && typeErr[a.Ill] {
+					o.Classes = append(o.Classes, "extra:unknown_field+type_error:"+fam)
+				}
+			}
+		}
+	}
 	shadowIll := false // an ill-formed payload under a key that is not the applicable one
 	for i := range c.Anns {
 		a := &c.Anns[i]
@@ -647,6 +667,10 @@ func judge(f *fixture, c C20Case) ev.Outcome {
 		case nullish:
 			// an empty / null document: the statement does not say whether that is "malformed"
 			o.Lenient = append(o.Lenient, "nullish_applicable_rejected")
+		case decorated:
+			// unknown fields, a duplicated key, an alias or a second document on an otherwise
+			// well-formed payload: the statement does not say whether that is "malformed"
+			o.Lenient = append(o.Lenient, "irregular_wellformed_rejected")
 		case shadowIll:
 			// a malformed annotation that is not the applicable one: "malformed annotations
 			// fail the request" may be read to include it
@@ -662,6 +686,9 @@ func judge(f *fixture, c C20Case) ev.Outcome {
 	}
 	if shadowIll {
 		o.Lenient = append(o.Lenient, "nonapplicable_ill_ignored")
+	}
+	if decorated {
+		o.Lenient = append(o.Lenient, "irregular_wellformed_accepted")
 	}
 	if rsp == nil {
 		return fail("nil response without error")
@@ -942,6 +969,7 @@ func TestExh_C20(t *testing.T) {
 	r.SetExtra("exhaustive_key_presence_combinations", n)
 	r.SetExtra("name_length_sweep_requests", sweepNameLengths(t, r))
 	r.SetExtra("separator_sweep_requests", sweepSeparators(t, r))
+	r.SetExtra("combination_sweep_requests", sweepCombinations(t, r))
 	r.SetExtra("exhaustive", false) // only the key-presence sub-domain is enumerated
 	r.SetExtra("exhaustive_subdomain", "per plugin option set (6) and key family (4), all 32 presence combinations of {container key for this container, for a prefix-named container, for an extension-named container, pod key, bare key}")
 }
@@ -1112,6 +1140,200 @@ func sweepSeparators(t *testing.T, r *ev.Recorder) int {
 				run(C20Case{Ctr: ctr, Anns: []Ann{a}})
 			}
 		}
+	}
+	return n
+}
+
+// sweepCombinations: every malformation of an entry combined with an unknown field that a
+// decoder meets in an earlier entry, in the same entry before the bad field, between the real
+// fields, or after them (scalar, mapping and list values in turn); and with a duplicated
+// key, an anchor/alias pair in a neighbouring entry and a trailing second document. A
+// malformed payload must fail the request whatever else it carries. Controls: each
+// irregularity alone on a well-formed payload (outcome left open; when accepted, the
+// annotated values must be applied). Container-scoped keys, every writer style.
+func sweepCombinations(t *testing.T, r *ev.Recorder) int {
+	const ctr = "c0"
+	n, turn := 0, 0
+	type entry = func() *node
+	good := map[string]entry{
+		famDev: func() *node { return devNode(Dev{Path: "/dev/good", Type: "c", Major: 1, Minor: 3}) },
+		famMnt: func() *node {
+			return mntNode(Mnt{Source: "/good", Destination: "/mnt/good", Type: "bind", Options: []string{"ro"}})
+		},
+		famRlim: func() *node { return rlimNode(Rlim{Type: "RLIMIT_CORE", Hard: u64p(10), Soft: u64p(5)}) },
+	}
+	victim := map[string]entry{
+		famDev: func() *node { return devNode(Dev{Path: "/dev/victim", Type: "b", Major: 8, Minor: 1}) },
+		famMnt: func() *node {
+			return mntNode(Mnt{Source: "/victim", Destination: "/mnt/victim", Type: "bind", Options: []string{"rw"}})
+		},
+		famRlim: func() *node { return rlimNode(Rlim{Type: "nofile", Hard: u64p(4096), Soft: u64p(1024)}) },
+	}
+	type malform struct {
+		name string
+		do   func(el *node) *node // returns the entry to use (possibly replaced)
+	}
+	set := func(k string, v *node) func(*node) *node {
+		return func(el *node) *node { el.put(k, v); return el }
+	}
+	del := func(k string) func(*node) *node {
+		return func(el *node) *node {
+			keys, items := []string{}, []*node{}
+			for i, key := range el.keys {
+				if key != k {
+					keys, items = append(keys, key), append(items, el.items[i])
+				}
+			}
+			el.keys, el.items = keys, items
+			return el
+		}
+	}
+	malforms := map[string][]malform{
+		famDev: {
+			{"str_in_int", set("major", nR("abc"))}, {"quoted_number", set("minor", nR(`"3"`))}, {"out_of_range", set("uid", nR("-1"))},
+			{"out_of_range", set("file_mode", nR("4294967296"))}, {"out_of_range", set("major", nR("1.5"))}, {"quoted_number", set("gid", nR("10 users"))},
+			{"seq_in_string", set("path", nL(nS("a")))}, {"seq_in_string", set("type", nM().put("a", nS("b")))},
+			{"elem_type", func(*node) *node { return nS("foo") }},
+		},
+		famMnt: {
+			{"scalar_options", set("options", nS("ro"))}, {"seq_in_string", set("source", nL(nS("a"), nS("b")))}, {"seq_in_string", set("destination", nM().put("a", nS("b")))},
+			{"elem_type", set("options", nL(nL(nS("a"))))}, {"seq_in_string", set("type", nL(nS("x")))}, {"elem_type", func(*node) *node { return nR("7") }},
+		},
+		famRlim: {
+			{"str_in_int", set("soft", nR("abc"))}, {"quoted_number", set("soft", nR(`"1024"`))}, {"quoted_number", set("soft", nR("100 procs"))},
+			{"out_of_range", set("hard", nR("-1"))}, {"out_of_range", set("hard", nR("18446744073709551616"))}, {"out_of_range", set("soft", nR("1.5"))},
+			{"str_in_int", set("hard", nR("unlimited"))}, {"unknown_type", set("type", nS("FOO"))}, {"missing_type", del("type")},
+			{"hard_lt_soft", func(el *node) *node { el.put("hard", nR("1")); el.put("soft", nR("2")); return el }},
+			{"seq_in_string", set("type", nL(nS("nofile")))}, {"elem_type", func(*node) *node { return nS("nofile") }},
+		},
+	}
+	uvals := []func() *node{
+		func() *node { return nS("ignored") },
+		func() *node { return nM().put("a", nR("1")).put("b", nL(nS("x"))) },
+		func() *node { return nL(nR("1"), nS("two")) },
+	}
+	run := func(a Ann, doc *node, second bool) {
+		a.Scope, a.Target = scopeCtr, ctr
+		a.Text = (&renderer{ch: cycleChooser{&turn}, style: a.Style}).render(doc)
+		if second {
+			a.Text = strings.TrimRight(a.Text, "\n") + "\n---\n" + secondDocs[a.Family]
+		}
+		c := C20Case{Ctr: ctr, Anns: []Ann{a}}
+		raw := ev.Snapshot(c)
+		r.Journal(raw)
+		o := runC20(c)
+		r.ClearJournal()
+		o.Classes = append(o.Classes, "sweep:combinations")
+		r.Record(raw, o)
+		if o.Fail != "" {
+			t.Fatalf("C20: %s", o.Fail)
+		}
+		n++
+	}
+	for _, fam := range []string{famDev, famMnt, famRlim} {
+		for _, style := range []string{"block", "flow", "json"} {
+			for mi, m := range malforms[fam] {
+				bad := func() *node { return m.do(victim[fam]()) }
+				uv := uvals[(mi+len(style))%len(uvals)]
+				// the malformation alone, then with an unknown field at each place
+				run(Ann{Family: fam, Style: style, Ill: m.name}, nL(good[fam](), bad()), false)
+				g := good[fam]()
+				g.put("note", uv())
+				run(Ann{Family: fam, Style: style, Ill: m.name, Extra: []string{exUnknown + ":earlier_entry"}}, nL(g, bad()), false)
+				for _, where := range []struct{ tag, name string }{{"same_entry_before", "aaa"}, {"same_entry_between", "note"}, {"same_entry_after", "zzz"}} {
+					b := bad()
+					if b.k != nMap {
+						continue
+					}
+					b.put(where.name, uv())
+					run(Ann{Family: fam, Style: style, Ill: m.name, Extra: []string{exUnknown + ":" + where.tag}}, nL(good[fam](), b), false)
+				}
+				g = good[fam]()
+				g.put("zzz", uv())
+				run(Ann{Family: fam, Style: style, Ill: m.name, Extra: []string{exUnknown + ":later_entry"}}, nL(bad(), g), false)
+				// duplicated key (same value twice) in the good entry and in the bad one
+				g = good[fam]()
+				g.keys, g.items = append(g.keys, g.keys[0]), append(g.items, g.items[0])
+				run(Ann{Family: fam, Style: style, Ill: m.name, Extra: []string{exDupKey}}, nL(g, bad()), false)
+				if b := bad(); b.k == nMap && len(b.keys) > 0 {
+					b.keys, b.items = append(b.keys, b.keys[len(b.keys)-1]), append(b.items, b.items[len(b.items)-1])
+					run(Ann{Family: fam, Style: style, Ill: m.name, Extra: []string{exDupKey}}, nL(good[fam](), b), false)
+				}
+				// a second, well-formed document after the malformed one
+				run(Ann{Family: fam, Style: style, Ill: m.name, Extra: []string{exSecondDoc}}, nL(good[fam](), bad()), true)
+				// an anchor/alias pair in the neighbouring entry
+				if style != "json" {
+					a := Ann{Family: fam, Style: style, Ill: m.name, Extra: []string{exAnchor}}
+					switch fam {
+					case famDev:
+						a.Devices = []Dev{{Path: "/dev/good", Type: "c", Major: 1, Minor: 3}}
+					case famMnt:
+						a.Mounts = []Mnt{{Source: "/good", Destination: "/mnt/good", Type: "bind", Options: []string{"ro"}}}
+					case famRlim:
+						a.Rlimits = []Rlim{{Type: "RLIMIT_CORE", Hard: u64p(10), Soft: u64p(5)}}
+					}
+					at := a.prepareAnchor(-1)
+					doc := nL(a.node().items[0], bad())
+					a.decorate(nil, doc, at)
+					a.Devices, a.Mounts, a.Rlimits = nil, nil, nil
+					run(a, doc, false)
+				}
+			}
+			// controls: each irregularity alone on a well-formed payload
+			wf := func(extra ...string) Ann {
+				a := Ann{Family: fam, Style: style, Extra: extra}
+				switch fam {
+				case famDev:
+					a.Devices = []Dev{{Path: "/dev/good", Type: "c", Major: 1, Minor: 3}, {Path: "/dev/victim", Type: "b", Major: 8, Minor: 1}}
+				case famMnt:
+					a.Mounts = []Mnt{{Source: "/good", Destination: "/mnt/good", Type: "bind", Options: []string{"ro"}}, {Source: "/victim", Destination: "/mnt/victim", Type: "bind", Options: []string{"rw"}}}
+				case famRlim:
+					a.Rlimits = []Rlim{{Type: "RLIMIT_CORE", Hard: u64p(10), Soft: u64p(5)}, {Type: "nofile", Hard: u64p(4096), Soft: u64p(1024)}}
+				}
+				return a
+			}
+			for _, name := range []string{"aaa", "note", "zzz"} {
+				for _, uv := range uvals {
+					a := wf(exUnknown)
+					doc := a.node()
+					doc.items[1].put(name, uv())
+					run(a, doc, false)
+				}
+			}
+			a := wf(exDupKey)
+			doc := a.node()
+			doc.items[0].keys, doc.items[0].items = append(doc.items[0].keys, doc.items[0].keys[1]), append(doc.items[0].items, doc.items[0].items[1])
+			run(a, doc, false)
+			a = wf(exSecondDoc)
+			run(a, a.node(), true)
+			if style != "json" {
+				a = wf(exAnchor)
+				at := a.prepareAnchor(-1)
+				doc = a.node()
+				a.decorate(nil, doc, at)
+				run(a, doc, false)
+			}
+		}
+	}
+	// CDI names are plain strings: two malformations at once, and a second document
+	for _, style := range []string{"block", "flow", "json"} {
+		name := func(s string) *node { return nS("vendor.com/device=" + s) }
+		for _, doc := range []*node{
+			nL(name("a"), nM().put("name", name("b"))),
+			nL(nL(name("a")), name("b")),
+			nL(name("a"), nL(name("b")), nM().put("k", nS("v"))),
+			nL(nM().put("k", nS("v")), nR("[")),
+		} {
+			if doc.items[len(doc.items)-1].s == "[" && style != "block" {
+				continue
+			}
+			run(Ann{Family: famCDI, Style: style, Ill: "elem_type"}, doc, false)
+			if doc.items[len(doc.items)-1].s != "[" {
+				run(Ann{Family: famCDI, Style: style, Ill: "elem_type", Extra: []string{exSecondDoc}}, doc, true)
+			}
+		}
+		a := Ann{Family: famCDI, Style: style, CDI: []string{"vendor.com/device=a", "vendor.com/device=b"}, Extra: []string{exSecondDoc}}
+		run(a, a.node(), true)
 	}
 	return n
 }
